@@ -664,7 +664,25 @@ func parseReplay(b []byte) (kind, src string) {
 	return kind, s
 }
 
+// runC17 runs the workload in a child process (same binary, C17_CHILD=1): a
+// broken lock discipline can end in "fatal error: concurrent map writes",
+// which recover() cannot catch; the parent then still writes a report with a
+// Failure of kind "panic" instead of leaving bin/check without evidence.
 func runC17(cfg *hv.RunCfg) error {
+	if os.Getenv("C17_CHILD") != "" {
+		return runC17Workload(cfg)
+	}
+	exit, log, err := runChild("", cfg, nil)
+	if err != nil {
+		return err
+	}
+	if exit == 0 {
+		return nil
+	}
+	return writeCrashReport(cfg, exit, log)
+}
+
+func runC17Workload(cfg *hv.RunCfg) error {
 	rep := hv.NewReport("C17", cfg.Seed)
 	rep.Rule = "one case = the complete, lock-ordered trace of ONE AnonSymbolExpr during one round in which G goroutines (2..16, own contexts, shared parents) evaluate the same parsed object concurrently (plus some single-goroutine traces of the preceding solo phase); items: hand corpus of splat expressions covering every path of SplatExpr.Value, grammar-directed splat expressions (attr/full/nested splats inside for, conditional, template, call, index key), a mutated stream, the same in JSON syntax, native/JSON bodies decoded with hcldec, dynamic-block expansion; non-trivial = some goroutine executed a critical section while another goroutine's value was in the table; distinct by SHA-256 of the trace"
 	rep.Notes = append(rep.Notes,
